@@ -29,3 +29,5 @@ pub mod c15;
 pub mod c15s;
 #[cfg(all(kani, feature = "fam_c17"))]
 pub mod c17;
+#[cfg(all(kani, feature = "fam_seq"))]
+pub mod seq;
